@@ -271,8 +271,6 @@ theorem arity_agrees (params results : List Field) (f : FnSig) (h : funcType par
         · simp; exact (h0 rfl).symm
         · simp; exact (h1 rfl).symm
 
-/-! ### the pinned tree (D4): unnamed parameters produced no argument -/
-namespace Pinned
 /-! ### which declarations become targets -/
 
 theorem mem_sortBy {α} (key : α → String) (l : List α) (x : α) : x ∈ sortBy key l ↔ x ∈ l := by
@@ -321,6 +319,35 @@ theorem targets_exact (p : Pkg) (f : Function) :
       rw [hr]; simp [hname]
 
 
+/-- **Which functions are targets does not depend on how the declarations are spread over files or in which order the
+files are read**: two packages with the same declarations (as sets) have the same targets. -/
+theorem targets_order_independent (p p' : Pkg)
+    (hf : ∀ d, d ∈ p.files.flatMap (·.funcs) ↔ d ∈ p'.files.flatMap (·.funcs))
+    (ht : ∀ t, t ∈ p.files.flatMap (·.types) ↔ t ∈ p'.files.flatMap (·.types)) (f : Function) :
+    f ∈ collectFuncs p ↔ f ∈ collectFuncs p' := by
+  rw [targets_exact, targets_exact]
+  constructor
+  · rintro ⟨d, s, ⟨h1, h2, h3, h4⟩, h5, h6⟩
+    refine ⟨d, s, ⟨(hf d).mp h1, h2, h3, ?_⟩, h5, h6⟩
+    rcases h4 with h | ⟨r, t, a, b, c, e⟩
+    · exact Or.inl h
+    · exact Or.inr ⟨r, t, a, (ht t).mp b, c, e⟩
+  · rintro ⟨d, s, ⟨h1, h2, h3, h4⟩, h5, h6⟩
+    refine ⟨d, s, ⟨(hf d).mpr h1, h2, h3, ?_⟩, h5, h6⟩
+    rcases h4 with h | ⟨r, t, a, b, c, e⟩
+    · exact Or.inl h
+    · exact Or.inr ⟨r, t, a, (ht t).mpr b, c, e⟩
+
+/-- in particular for a permutation of the file list -/
+theorem targets_file_order_independent (files files' : List File) (h : files.Perm files') (f : Function) :
+    f ∈ collectFuncs ⟨files⟩ ↔ f ∈ collectFuncs ⟨files'⟩ := by
+  apply targets_order_independent
+  · intro d; simp only [List.mem_flatMap]; constructor <;> (rintro ⟨a, ha, hd⟩; exact ⟨a, by first | exact h.mem_iff.mp ha | exact h.mem_iff.mpr ha, hd⟩)
+  · intro t; simp only [List.mem_flatMap]; constructor <;> (rintro ⟨a, ha, hd⟩; exact ⟨a, by first | exact h.mem_iff.mp ha | exact h.mem_iff.mpr ha, hd⟩)
+
+
+/-! ### the pinned tree (D4): unnamed parameters produced no argument -/
+namespace Pinned
 /-- `for _, name := range param.Names` only -/
 def collectArgsPinned : List Field → List Arg
   | [] => []
